@@ -20,6 +20,8 @@ type Op struct {
 	Svc     string `json:"svc,omitempty"`
 	ThinkNs int64  `json:"think_ns,omitempty"` // simulated time before the op
 	ClearS  int64  `json:"clear_s,omitempty"`  // clear: duration = skew + ClearS seconds
+	SvcNT   int32  `json:"svc_nt,omitempty"`   // name-type of the service name as presented (0 = 1; not significant, RFC 4120 6.2)
+	Alt     bool   `json:"alt,omitempty"`      // presented through the process's second settings object (other clock skew)
 }
 
 type TaskT struct {
@@ -35,6 +37,7 @@ type Tape struct {
 	Path    string  `json:"path"` // isreplay | verify
 	Etype   int     `json:"etype,omitempty"`
 	Shape   string  `json:"shape"`
+	AltMs   int64   `json:"alt_skew_ms,omitempty"` // clock skew of a second settings object in the same process (0 = none)
 	Tasks   []TaskT `json:"tasks"`
 }
 
@@ -49,9 +52,9 @@ var (
 func Meta() core.Meta {
 	return core.Meta{
 		Engine: "c02", Property: "C02", Level: "exploration",
-		Rule:        "case = one seeded run: 1-3 presenter tasks (1-8 presentations each over clients{a,b,a/admin} x client times{t0,+1us,+1s,late,early} x services{s1,s2}) plus the library's clean-up goroutine, interleaved by the seeded fake-time scheduler at every lock boundary of service/cache.go; distinct = distinct (shape, path, skew, interleaving hash of the ordered (task, lock site) sequence, outcome vector); non-trivial = at least two presentations of one identity inside the skew window, or a context switch inside a cache operation",
+		Rule:        "case = one seeded run: 1-3 presenter tasks (1-8 presentations each over clients{a,b,a/admin} x client times{t0,+1us,+1s,late,early} x services{s1,s2} x service name-type{1,2,3} x 1-2 settings objects with different clock skews sharing the process's cache) plus the library's clean-up goroutine, interleaved by the seeded fake-time scheduler at every lock boundary of service/cache.go; distinct = distinct (shape, path, skew, interleaving hash of the ordered (task, lock site) sequence, outcome vector); non-trivial = at least two presentations of one identity inside the skew window, or a context switch inside a cache operation",
 		SeededQuick: 20000, SeededThorough: 600000,
-		WorkloadProbes: []string{"same-identity-overlap", "late-window", "cleaner-between", "cross-service", "sequential-replay"},
+		WorkloadProbes: []string{"same-identity-overlap", "late-window", "cleaner-between", "cross-service", "sequential-replay", "presentation-overlaps-cleanup", "replay-under-other-name-type", "replay-through-other-settings"},
 		Components: map[string]string{
 			"service.Cache (IsReplay, AddEntry, getClientEntry, ClearOldEntries) + GetReplayCache clean-up goroutine": "real",
 			"service.VerifyAPREQ, messages.APReq.Verify, keytab, crypto (path=verify)":                                "real",
@@ -142,6 +145,36 @@ func Gen(caseID, tier string) (json.RawMessage, error) {
 			t.Ops = append(t.Ops, o)
 		}
 		tp.Tasks = append(tp.Tasks, t)
+	case 7: // clean-up racing with the return of a client whose earlier entries have all aged out
+		tp.Shape = "cleanup-race"
+		cl, sv := r.Pick(clients...), r.Pick(services...)
+		oldCt := -skewUs + 200_000
+		// the old authenticator stops being acceptable 0.2 s after the start; the client comes back
+		// a little later (explicit clean-up by another task) or exactly when the library's own
+		// clean-up goroutine wakes (every skew period after the creation of the cache)
+		back := int64(300_000_000) + int64(r.Range(0, 200))*1_000_000
+		if r.Chance(1, 2) {
+			back = tp.SkewS*1_000_000_000*int64(r.Range(1, 2)) - 2_000
+		}
+		jit := func() int64 { return int64(r.Range(0, 6_000)) }
+		t1 := TaskT{ID: 1, Sched: simrt.Sched{Seed: r.U64(), Mode: modes[r.Intn(len(modes))]}}
+		t1.Ops = append(t1.Ops, Op{Op: "present", Client: cl, CtUs: oldCt, Svc: sv, ThinkNs: int64(r.Range(0, 300))})
+		t1.Ops = append(t1.Ops, Op{Op: "present", Client: cl, CtUs: 0, Svc: sv, ThinkNs: back + jit()})
+		t1.Ops = append(t1.Ops, Op{Op: "present", Client: cl, CtUs: 0, Svc: sv, ThinkNs: int64(r.Range(0, 5_000))})
+		if r.Chance(1, 2) {
+			t1.Ops = append(t1.Ops, Op{Op: "present", Client: cl, CtUs: 0, Svc: sv, ThinkNs: thinkChoices()})
+		}
+		t2 := TaskT{ID: 2, Sched: simrt.Sched{Seed: r.U64(), Mode: modes[r.Intn(len(modes))]}}
+		t2.Ops = append(t2.Ops, Op{Op: "clear", ThinkNs: back + jit()})
+		if r.Chance(1, 2) {
+			t2.Ops = append(t2.Ops, Op{Op: "present", Client: cl, CtUs: 0, Svc: sv, ThinkNs: int64(r.Range(0, 5_000))})
+		}
+		tp.Tasks = append(tp.Tasks, t1, t2)
+		if r.Chance(1, 3) {
+			t3 := TaskT{ID: 3, Sched: simrt.Sched{Seed: r.U64(), Mode: modes[r.Intn(len(modes))]}}
+			t3.Ops = append(t3.Ops, Op{Op: "clear", ThinkNs: back + jit()})
+			tp.Tasks = append(tp.Tasks, t3)
+		}
 	default: // mixed
 		tp.Shape = "mixed"
 		nt := r.Range(2, 3)
@@ -172,6 +205,25 @@ func Gen(caseID, tier string) (json.RawMessage, error) {
 				t.Ops = append(t.Ops, o)
 			}
 			tp.Tasks = append(tp.Tasks, t)
+		}
+	}
+	// not significant for identity: the name-type under which the service name is presented, and
+	// which of the process's settings objects (sharing the one replay cache) verifies
+	if r.Chance(1, 3) {
+		tp.AltMs = tp.SkewS * int64(r.PickInt(500, 500, 2000))
+	}
+	for ti := range tp.Tasks {
+		for oi := range tp.Tasks[ti].Ops {
+			o := &tp.Tasks[ti].Ops[oi]
+			if o.Op != "present" {
+				continue
+			}
+			if r.Chance(1, 4) {
+				o.SvcNT = int32(r.PickInt(2, 3))
+			}
+			if tp.AltMs != 0 && r.Chance(1, 2) {
+				o.Alt = true
+			}
 		}
 	}
 	return core.MustJSON(tp), nil
